@@ -42,12 +42,12 @@ Proof.
     apply andb_prop in W. destruct W as [W _]. apply tkind_eqb_eq in W. rewrite W in B. discriminate.
 Qed.
 
-Lemma build_agrees : forall fuel h rest e rest',
+Lemma build_agrees : forall lenient fuel h rest e rest',
   wf_hc h = true -> rest_ok rest ->
-  build fuel (yield h ++ rest) = Ok (e, rest') ->
+  build lenient fuel (yield h ++ rest) = Ok (e, rest') ->
   (rest' = rest /\ denote h = Some e) \/ (exists t rs, rest' = t :: rs /\ is_compop (tk t) = true).
 Proof.
-  induction fuel as [|f IH]; intros h rest e rest' W R H; [discriminate|].
+  intros lenient. induction fuel as [|f IH]; intros h rest e rest' W R H; [discriminate|].
   destruct h as [t c | n h1 | l h1 r c].
   - (* operand COMPOSITE *)
     cbn [yield app] in H. cbn [build] in H. cbn [wf_hc] in W. apply andb_prop in W. destruct W as [Wt Wc].
@@ -68,7 +68,7 @@ Proof.
   - (* NOT clause *)
     cbn [yield app] in H. cbn [build] in H. cbn [wf_hc] in W. apply andb_prop in W. destruct W as [Wn W1].
     apply tkind_eqb_eq in Wn. rewrite Wn in H.
-    destruct (build f (yield h1 ++ rest)) as [[e1 r1]| | |] eqn:B; try discriminate.
+    destruct (build lenient f (yield h1 ++ rest)) as [[e1 r1]| | |] eqn:B; try discriminate.
     injection H as <- <-.
     destruct (IH h1 rest e1 r1 W1 R B) as [[-> D]|X].
     + left. split; [reflexivity|]. cbn [denote]. rewrite D. reflexivity.
@@ -80,7 +80,7 @@ Proof.
     replace ((l :: yield h1 ++ r :: yield_comp c) ++ rest) with (l :: yield h1 ++ (r :: yield_comp c ++ rest)) in H
       by (cbn [app]; rewrite <- app_assoc; reflexivity).
     cbn [build] in H. rewrite Wl in H.
-    destruct (build f (yield h1 ++ r :: yield_comp c ++ rest)) as [[e1 ce']| | |] eqn:B; try discriminate.
+    destruct (build lenient f (yield h1 ++ r :: yield_comp c ++ rest)) as [[e1 ce']| | |] eqn:B; try discriminate.
     assert (R1 : rest_ok (r :: yield_comp c ++ rest)) by (right; exists r, (yield_comp c ++ rest); auto).
     destruct (IH h1 _ e1 ce' W1 R1 B) as [[-> D]|(t & rs & -> & Ct)].
     2:{ (* a composite operator where ')' is expected *)
@@ -92,22 +92,25 @@ Proof.
       * injection H as <- <-. left. split; [reflexivity|]. cbn [denote]. exact D.
       * destruct rs as [|x rs].
         -- injection H as <- <-. left. split; [reflexivity|]. cbn [denote]. exact D.
-        -- rewrite Kr in H. discriminate.
+        -- rewrite Kr in H. destruct lenient; [|discriminate].
+           injection H as <- <-. left. split; [reflexivity|]. cbn [denote]. exact D.
     + cbn [yield_comp app] in H. cbn [wf_comp] in Wc. apply andb_prop in Wc. destruct Wc as [Wo W2].
       destruct (yield_nonempty h2) as (b & w & Y).
       assert (Hy : yield h2 ++ rest = b :: (w ++ rest)) by (rewrite Y; reflexivity).
       rewrite Hy in H.
-      destruct (tk o) eqn:Ko; cbn in Wo; try discriminate; try discriminate H.
+      destruct (tk o) eqn:Ko; cbn in Wo; try discriminate;
+        try (destruct lenient; [|discriminate H]; injection H as <- <-; right; exists o, (b :: w ++ rest);
+             split; [reflexivity | rewrite Ko; reflexivity]).
       * (* AND *)
         rewrite <- Hy in H.
-        destruct (build f (yield h2 ++ rest)) as [[e2 r2]| | |] eqn:B2; try discriminate.
+        destruct (build lenient f (yield h2 ++ rest)) as [[e2 r2]| | |] eqn:B2; try discriminate.
         injection H as <- <-.
         destruct (IH h2 rest e2 r2 W2 R B2) as [[-> D2]|X].
         -- left. split; [reflexivity|]. cbn [denote]. rewrite Ko, D, D2. reflexivity.
         -- right. exact X.
       * (* OR *)
         rewrite <- Hy in H.
-        destruct (build f (yield h2 ++ rest)) as [[e2 r2]| | |] eqn:B2; try discriminate.
+        destruct (build lenient f (yield h2 ++ rest)) as [[e2 r2]| | |] eqn:B2; try discriminate.
         injection H as <- <-.
         destruct (IH h2 rest e2 r2 W2 R B2) as [[-> D2]|X].
         -- left. split; [reflexivity|]. cbn [denote]. rewrite Ko, D, D2. reflexivity.
@@ -115,22 +118,22 @@ Proof.
 Qed.
 
 (* NewEvaluator on the token string of a derivation: rejected, or exactly the expression the derivation denotes *)
-Theorem builder_agrees_with_grammar : forall h e, wf_hc h = true ->
-  new_evaluator (yield h) = Ok e -> denote h = Some e.
+Theorem builder_agrees_with_grammar : forall lenient h e, wf_hc h = true ->
+  new_evaluator_with lenient (yield h) = Ok e -> denote h = Some e.
 Proof.
-  intros h e W H. unfold new_evaluator in H.
-  destruct (build (S (length (yield h))) (yield h)) as [[e1 tail]| | |] eqn:B; try discriminate.
+  intros lenient h e W H. unfold new_evaluator_with in H.
+  destruct (build lenient (S (length (yield h))) (yield h)) as [[e1 tail]| | |] eqn:B; try discriminate.
   rewrite <- (app_nil_r (yield h)) in B at 2.
-  destruct (build_agrees _ h [] e1 tail W (or_introl eq_refl) B) as [[-> D]|(t & rs & -> & Ct)].
+  destruct (build_agrees _ _ h [] e1 tail W (or_introl eq_refl) B) as [[-> D]|(t & rs & -> & Ct)].
   - injection H as <-. exact D.
   - destruct rs; [|discriminate]. destruct (tk t); cbn in Ct; try discriminate; discriminate H.
 Qed.
 
 (* ---- fuel ------------------------------------------------------------------------------------------------------ *)
-Lemma build_fuel : forall fuel ce, (length ce < fuel)%nat ->
-  build fuel ce <> Err EFuel /\ (forall e rest, build fuel ce = Ok (e, rest) -> (length rest < length ce)%nat).
+Lemma build_fuel : forall lenient fuel ce, (length ce < fuel)%nat ->
+  build lenient fuel ce <> Err EFuel /\ (forall e rest, build lenient fuel ce = Ok (e, rest) -> (length rest < length ce)%nat).
 Proof.
-  induction fuel as [|f IH]; intros ce L; [lia|].
+  intros lenient. induction fuel as [|f IH]; intros ce L; [lia|].
   destruct ce as [|head tail]; [split; [discriminate | intros; discriminate]|].
   cbn [build]. cbn [length] in L.
   destruct (tk head); try (split; [discriminate | intros; discriminate]).
@@ -145,14 +148,14 @@ Proof.
     + unfold mk_comparison in M. destruct (is_nil _ || is_nil _); [congruence|]. destruct (tk bT); congruence.
   - (* not *)
     destruct (IH tail ltac:(lia)) as [F S1].
-    destruct (build f tail) as [[e1 r1]| | |] eqn:B.
+    destruct (build lenient f tail) as [[e1 r1]| | |] eqn:B.
     + split; [discriminate|]. intros e r H. injection H as <- <-. specialize (S1 e1 r1 eq_refl). cbn. lia.
     + split; [congruence | intros; discriminate].
     + split; [discriminate | intros; discriminate].
     + split; [discriminate | intros; discriminate].
   - (* ( *)
     destruct (IH tail ltac:(lia)) as [F S1].
-    destruct (build f tail) as [[e1 ce']| | |] eqn:B.
+    destruct (build lenient f tail) as [[e1 ce']| | |] eqn:B.
     2:{ split; [congruence | intros; discriminate]. }
     2:{ split; [discriminate | intros; discriminate]. }
     2:{ split; [discriminate | intros; discriminate]. }
@@ -162,26 +165,28 @@ Proof.
     destruct tl as [|opT [|x rhs]].
     + split; [discriminate|]. intros e r H. injection H as <- <-. cbn in *. lia.
     + split; [discriminate|]. intros e r H. injection H as <- <-. cbn in *. lia.
-    + destruct (tk opT); try (split; [discriminate | intros; discriminate]).
+    + destruct (tk opT);
+        try (destruct lenient; [split; [discriminate | intros e r H; injection H as <- <-; cbn [length] in *; lia]
+                               | split; [discriminate | intros; discriminate]]).
       * cbn [length] in S1. destruct (IH (x :: rhs) ltac:(cbn [length]; lia)) as [F2 S2].
-        destruct (build f (x :: rhs)) as [[e2 r2]| | |] eqn:B2.
+        destruct (build lenient f (x :: rhs)) as [[e2 r2]| | |] eqn:B2.
         -- split; [discriminate|]. intros e r H. injection H as <- <-. specialize (S2 e2 r2 eq_refl). cbn [length] in *. lia.
         -- split; [congruence | intros; discriminate].
         -- split; [discriminate | intros; discriminate].
         -- split; [discriminate | intros; discriminate].
       * cbn [length] in S1. destruct (IH (x :: rhs) ltac:(cbn [length]; lia)) as [F2 S2].
-        destruct (build f (x :: rhs)) as [[e2 r2]| | |] eqn:B2.
+        destruct (build lenient f (x :: rhs)) as [[e2 r2]| | |] eqn:B2.
         -- split; [discriminate|]. intros e r H. injection H as <- <-. specialize (S2 e2 r2 eq_refl). cbn [length] in *. lia.
         -- split; [congruence | intros; discriminate].
         -- split; [discriminate | intros; discriminate].
         -- split; [discriminate | intros; discriminate].
 Qed.
 
-Theorem build_fuel_enough : forall ce, new_evaluator ce <> Err EFuel.
+Theorem build_fuel_enough : forall lenient ce, new_evaluator_with lenient ce <> Err EFuel.
 Proof.
-  intro ce. unfold new_evaluator.
-  destruct (build_fuel (S (length ce)) ce ltac:(lia)) as [F _].
-  destruct (build (S (length ce)) ce) as [[e tail]| | |]; try congruence; try discriminate.
+  intros lenient ce. unfold new_evaluator_with.
+  destruct (build_fuel lenient (S (length ce)) ce ltac:(lia)) as [F _].
+  destruct (build lenient (S (length ce)) ce) as [[e tail]| | |]; try congruence; try discriminate.
   destruct tail as [|t [|x tl]]; try discriminate. destruct (tk t); discriminate.
 Qed.
 
@@ -228,4 +233,63 @@ Proof.
   intros ts h H. unfold derivation_of in H.
   destruct (parse_hc (S (length ts)) ts) as [[h0 [|x r]]|] eqn:P; try discriminate.
   injection H as <-. destruct (parse_hc_sound _ _ _ _ P) as [E W]. rewrite app_nil_r in E. auto.
+Qed.
+
+(* ---- completeness of the repaired builder -------------------------------------------------------------------------
+   With the parenthesis case repaired ([lenient] = true) every derivation that has a boolean meaning is accepted. *)
+Lemma build_complete : forall fuel h rest e,
+  wf_hc h = true -> denote h = Some e -> rest_ok rest -> (length (yield h ++ rest) < fuel)%nat ->
+  build true fuel (yield h ++ rest) = Ok (e, rest).
+Proof.
+  induction fuel as [|f IH]; intros h rest e W D R L; [lia|].
+  destruct h as [t c | n h1 | l h1 r c].
+  - (* binding op operand *)
+    cbn [denote] in D. destruct c as [|o h2]; [discriminate|].
+    destruct h2 as [t2 c2| |]; try discriminate. destruct c2; [|discriminate].
+    destruct (tk t) eqn:Kt; try discriminate. destruct (cop_of (tk o)) as [op|] eqn:Co; [|discriminate].
+    unfold comparison_of in D. destruct (mk_comparison op t t2) as [e0| | |] eqn:M; try discriminate.
+    injection D as <-. cbn [yield yield_comp app]. cbn [build]. rewrite Kt, Co, M. reflexivity.
+  - (* NOT *)
+    cbn [denote] in D. destruct (denote h1) as [e1|] eqn:D1; [|discriminate]. injection D as <-.
+    cbn [wf_hc] in W. apply andb_prop in W. destruct W as [Wn W1]. apply tkind_eqb_eq in Wn.
+    cbn [yield app]. cbn [build]. rewrite Wn.
+    rewrite (IH h1 rest e1 W1 D1 R); [reflexivity|]. cbn [yield app length] in L. lia.
+  - (* ( clause ) COMPOSITE *)
+    cbn [wf_hc] in W.
+    apply andb_prop in W. destruct W as [W Wc]. apply andb_prop in W. destruct W as [W Wr].
+    apply andb_prop in W. destruct W as [Wl W1]. apply tkind_eqb_eq in Wl, Wr.
+    cbn [yield].
+    replace ((l :: yield h1 ++ r :: yield_comp c) ++ rest) with (l :: yield h1 ++ (r :: yield_comp c ++ rest))
+      by (cbn [app]; rewrite <- app_assoc; reflexivity).
+    assert (L1 : (length (yield h1 ++ r :: yield_comp c ++ rest) < f)%nat).
+    { cbn [yield] in L. cbn [app length] in L. rewrite <- app_assoc in L. cbn [app] in L. lia. }
+    assert (R1 : rest_ok (r :: yield_comp c ++ rest)) by (right; exists r, (yield_comp c ++ rest); auto).
+    cbn [denote] in D.
+    destruct c as [|o h2].
+    + cbn [build]. rewrite Wl. rewrite (IH h1 _ e W1 D R1 L1). rewrite Wr. cbn [yield_comp app].
+      destruct R as [->|(r2 & rs & -> & Kr)]; [reflexivity|].
+      destruct rs as [|x rs]; [reflexivity|]. rewrite Kr. reflexivity.
+    + destruct (denote h1) as [a|] eqn:D1.
+      2:{ destruct (tk o); discriminate. }
+      destruct (denote h2) as [b|] eqn:D2.
+      2:{ destruct (tk o); discriminate. }
+      cbn [wf_comp] in Wc. apply andb_prop in Wc. destruct Wc as [Wo W2].
+      cbn [build]. rewrite Wl. rewrite (IH h1 _ a W1 D1 R1 L1). rewrite Wr. cbn [yield_comp app].
+      destruct (yield_nonempty h2) as (b0 & w & Y).
+      assert (Hy : yield h2 ++ rest = b0 :: (w ++ rest)) by (rewrite Y; reflexivity).
+      assert (L2 : (length (yield h2 ++ rest) < f)%nat).
+      { clear - L1. cbn [yield_comp] in L1.
+        repeat (rewrite app_length in L1 || cbn [length app] in L1). rewrite app_length. lia. }
+      rewrite Hy.
+      destruct (tk o) eqn:Ko; try discriminate.
+      * injection D as <-. rewrite <- Hy. rewrite (IH h2 rest b W2 D2 R L2). reflexivity.
+      * injection D as <-. rewrite <- Hy. rewrite (IH h2 rest b W2 D2 R L2). reflexivity.
+Qed.
+
+Theorem builder_complete_when_repaired : forall h e, wf_hc h = true -> denote h = Some e ->
+  new_evaluator_with true (yield h) = Ok e.
+Proof.
+  intros h e W D. unfold new_evaluator_with.
+  rewrite <- (app_nil_r (yield h)) at 2.
+  rewrite (build_complete _ h [] e W D (or_introl eq_refl)); [reflexivity|]. rewrite app_nil_r. lia.
 Qed.
